@@ -63,7 +63,9 @@ def is_real(v):
 def is_sentinel(v):
     try:
         return is_real(v) and float(v) == -1.0
-    except Exception:
+    except Exception as e:
+        if base.harness_exc(e):
+            raise
         return False
 
 
@@ -116,14 +118,18 @@ def check_case(case):
                     continue                # no consensus returned: C03 / C14
                 try:
                     raws = [A.ranking_to_raw(r) for r in cons.consensus_rankings]
-                except Exception:
+                except Exception as e:
+                    if base.harness_exc(e):
+                        raise
                     continue                # not a list of rankings: C03
                 if not raws:
                     continue
                 try:
                     if algs.well_formed(cons, set(universe), one) is not None:
                         continue            # K(r, D) is only defined for rankings over exactly the universe: C03
-                except Exception:
+                except Exception as e:
+                    if base.harness_exc(e):
+                        raise
                     continue
                 truths = [O.kemeny(r, exp_r, B, T) for r in raws]
                 ctx = {"config": label, "one": one, "run": tag, "consensus": raws[:4], "K": truths[:4]}
@@ -139,6 +145,8 @@ def check_case(case):
                 try:
                     v1 = cons.kemeny_score
                 except Exception as e:
+                    if base.harness_exc(e):
+                        raise
                     add({"clause": "C04.lazy.raise", "site": "lazy" if not supplied else site_of(label, cons,
                                                                                                ConsensusFeature),
                          "detail": dict(ctx, exception="%s: %s" % (type(e).__name__, str(e)[:200]))})
@@ -171,6 +179,8 @@ def check_case(case):
             v = cons.kemeny_score
             v_again = cons.kemeny_score
         except Exception as e:
+            if base.harness_exc(e):
+                raise
             add({"clause": "C04.lazy.raise", "site": "lazy/direct",
                  "detail": {"candidate": cand, "exception": "%s: %s" % (type(e).__name__, str(e)[:200])}})
             continue
